@@ -177,9 +177,12 @@ def write_evidence(ctx: Ctx, spec: dict, nviol: int, known, extra_cov=None):
         traces_validated_against_impl=ctx.behaviours,
         samples=ctx.samples[:4] or [dict(note="no behaviour generated")],
         evaluations=rs.get("steps_new", 0),
-        distinct_nontrivial=rs.get("steps_new", 0),
-        rule=spec.get("rule", "every distinct pipeline prefix of every TLC-generated behaviour is executed once per backend and "
-                              "compared with the specification's predicted observation; distinct = distinct (source, move sequence) prefixes"),
+        distinct_nontrivial=rs.get("nontrivial", rs.get("steps_new", 0)),
+        rule=spec.get("rule", "evaluations = distinct (source, move sequence) prefixes of the TLC-generated behaviours, each executed once per backend and "
+                              "compared with the specification's predicted observation; a prefix is non-trivial if its last step was compared "
+                              "cell by cell against a non-empty predicted table on at least one backend, or an exception class was compared, or "
+                              "an observation value (name lookup / equivalence pair) was compared - steps whose data is undetermined (section 4) "
+                              "or whose predicted table is empty are counted as trivial"),
         exhaustive=ctx.exhaustive,
         tlc_runs=ctx.tlc_runs,
         replay=rs,
